@@ -42,6 +42,7 @@ type ConvSpec struct {
 	Window  int       `json:"win,omitempty"` // max displacement
 	Dup     int       `json:"dup,omitempty"` // percent of segments retransmitted
 	StepUS  int64     `json:"step,omitempty"`
+	Late    int       `json:"late,omitempty"` // per cent chance per long burst that its first segment arrives last
 }
 
 type Spec struct {
@@ -302,6 +303,13 @@ func convPackets(ci int, c *ConvSpec) ([]Packet, Truth) {
 					order[j] = e
 				}
 			}
+		}
+		if c.Late > 0 && len(order) >= 18 && r.intn(100) < c.Late {
+			// the first segment of a long burst is lost and retransmitted after the
+			// whole burst was captured (reordering bounded by the burst length)
+			e := order[0]
+			copy(order[0:], order[1:])
+			order[len(order)-1] = e
 		}
 		sent := []int{}
 		for _, k := range order {
